@@ -20,7 +20,7 @@ def run(ctx):
     ctx.tlc_expect_ok("Obfs4Wire", "Obfs4Wire_MC.cfg", label="wire format rules: internal consistency", timeout=900)
     rng = random.Random(ctx.seed * 32452843 + 6)
     scen = []
-    for i in range(60 if quick else 5000):
+    for i in range(60 if quick else 20000):
         c, s = [("real", "ref"), ("ref", "real")][i % 2]
         siat, ciat = rng.choice([0, 0, 1, 2]), rng.choice([0, 0, 1, 2])
         maxw = 3 if (siat or ciat) else 5
